@@ -123,7 +123,10 @@ def check_ms(t):
     back = utils.parse_date(s)
     if not isinstance(back, datetime.datetime) or abs((back - d).total_seconds()) > 0.0005:
         out.append(('date-time does not survive serial conversion to the millisecond', str(d), str(back)))
-    d2 = d + datetime.timedelta(milliseconds=1)
+    try:
+        d2 = d + datetime.timedelta(milliseconds=1)
+    except OverflowError:
+        d2 = d
     if d2.year <= 9999 and d2 > d:
         s2 = utils.serialize_date(d2)
         if not s < s2:
@@ -257,6 +260,10 @@ def explore(ctx):
     nms = 200000 if ctx.thorough else 6000
     dts = [rand_dt(rng) for _ in range(nms)] + [rand_dt(rng, ORD_1900, ORD_1900 + 70) for _ in range(nms // 10)]
     dts += [rand_dt(rng, ms=False) for _ in range(nms // 10)]
+    # the first days of the system (serial 0 / 1, the phantom 29 February) and the last one, at several times of day
+    for (y, mo, d_) in ((1900, 1, 1), (1900, 1, 2), (1900, 2, 28), (1900, 3, 1), (1900, 3, 2), (9999, 12, 31), (1969, 12, 31), (1970, 1, 1)):
+        for tm in ((0, 0, 0, 0), (0, 0, 0, 1000), (6, 0, 0, 0), (12, 0, 0, 0), (22, 15, 30, 0), (23, 59, 59, 999000)):
+            dts.append([y, mo, d_] + list(tm))
     compare(R, ctx, 'serial', dts, lambda t: t, _impl_serial, key=tuple, eq=eq_serial)
     # 2. correspondence: parse_date on whole serials and fractional serials
     if ctx.thorough:
@@ -322,7 +329,7 @@ def search(ctx, proof, res):
     for bad in pmap(_check_day_block, [ords[i:i + 2048] for i in range(0, len(ords), 2048)], limit=120.0):
         for (o, w, e, g) in bad:
             R.violate({'ordinal': o}, w, None, e, g)
-    dts = [rand_dt(rng) for _ in range(100000)]
+    dts = [rand_dt(rng) for _ in range(100000)] + [rand_dt(rng, ORD_1900, ORD_1900 + 3) for _ in range(2000)]
     for vs in pmap(_check_ms_worker, dts):
         for (t, w, e, g) in vs:
             R.violate({'date': t}, w, None, repr(e), repr(g))
